@@ -10,6 +10,8 @@ pub mod cli;
 pub mod codec;
 pub mod bcverify;
 pub mod sinks;
+pub mod refvm;
+pub mod layout;
 pub mod universes;
 pub mod props;
 
